@@ -6,6 +6,7 @@ import ast
 
 from sa.cfg import CFG
 from sa.loader import dotted, norm, own_nodes
+from sa.expr import cmp_atom, edges_where
 from sa.util import self_attr
 
 TRIAL = "optuna.trial._trial.Trial"
@@ -66,3 +67,32 @@ def suggest_chain(ctx, rule):
     ok = all(g.dominated_by(n, [], reuse_false) for n in indep + rel_read + fixed_read + single_read)
     ctx.check(ok, R, f.short, "reuse-first", message="a new value can be chosen although the parameter was already suggested in this trial",
               how="all value sources dominated by `name not in trial.distributions`")
+
+def fixed_iff_rule(ctx, rule):
+    """Trial._is_fixed_param returns True exactly when the name is among the trial's fixed (enqueued)
+    parameters - whatever the value is (None and out-of-range values included: the caller warns)."""
+    p = ctx.program
+    tcls = p.cls(TRIAL)
+    # _is_fixed_param: True whenever the name is fixed
+    f = tcls.methods.get("_is_fixed_param")
+    ctx.require(f is not None, f"{rule}: _is_fixed_param vanished")
+    g = CFG(f.node, name=f.qualname)
+
+    def atom_in_fixed(e):
+        a = cmp_atom(e)
+        if a and a[0] == "name" and a[2] == "self._fixed_params":
+            return True if a[1] is ast.In else (False if a[1] is ast.NotIn else None)
+        return None
+    acc_in = []
+    for t in g.stmt_nodes():
+        if t.kind == "test":
+            pol = edges_where(t.expr, atom_in_fixed)
+            for k, m in t.succ:
+                if pol.get(k) is True:
+                    acc_in.append((t, k, m))
+    rets = [n for n in g.stmt_nodes() if n.kind == "stmt" and isinstance(n.ast, ast.Return)]
+    okT = all((isinstance(n.ast.value, ast.Constant) and n.ast.value.value is True) == g.dominated_by(n, [], acc_in) for n in rets) and bool(acc_in)
+    ctx.check(okT, rule, f.short, "fixed-iff-name-in-fixed-params",
+              message="_is_fixed_param does not return True exactly when the name is among the fixed parameters (e.g. an out-of-range "
+                      "enqueued value is silently replaced by the sampler)",
+              how="`return True` <=> dominated by `name in self._fixed_params`")
